@@ -303,7 +303,9 @@ def _tpl_to_pattern(tpl):
     return p
 
 
-def apply_op(model, op, union, fresh, single_graph=False, ignore_using_named=False):
+def apply_op(model, op, union, fresh, single_graph=False, ignore_using_named=False, default_iri=None):
+    """default_iri: key of the IRI under which the handle's default graph is also addressable as a graph of the store
+    (e.g. ('u', 'urn:x-rdflib:default') for a Dataset): a graph reference spelling that IRI means the default graph"""
     """model: {gkey or DEFAULT: set}.  Mutates model.  Returns a set of acceptable alternative outcomes only for
     operations where the spec leaves a choice (list of (description, model) alternatives) - else None."""
     named = {k: v for k, v in model.items() if k != DEFAULT}
@@ -368,6 +370,8 @@ def apply_op(model, op, union, fresh, single_graph=False, ignore_using_named=Fal
             model.setdefault(gk, set()).add(tr)
     elif k in ("clear", "drop"):
         g = op["g"]
+        if g not in ("DEFAULT", "NAMED", "ALL") and default_iri is not None and skey(g) == default_iri:
+            g = "DEFAULT"
         if g == "DEFAULT":
             model[DEFAULT] = set()
         elif g == "NAMED":
@@ -381,6 +385,9 @@ def apply_op(model, op, union, fresh, single_graph=False, ignore_using_named=Fal
     elif k in ("add", "move", "copy"):
         src = DEFAULT if op["src"] == "DEFAULT" else skey(op["src"])
         dst = DEFAULT if op["dst"] == "DEFAULT" else skey(op["dst"])
+        if default_iri is not None:
+            src = DEFAULT if src == default_iri else src
+            dst = DEFAULT if dst == default_iri else dst
         if src == dst:
             return None
         data = set(model.get(src, set()))
